@@ -154,7 +154,7 @@ NAMES = ["C", "E", "F", "B", "B#", "Cb", "F#", "Eb"]
 def c14_range(ii: int, ni: int, o: int, form: int) -> bool:
     nm, cls, lo, hi = pick(INSTR, ii)
     name = pick(NAMES, ni)
-    form = enum(form, 0, 4)
+    form = enum(form, 0, 6)
     t = Track(cls())
     if not t.add_notes(None, 4):
         return False
@@ -166,9 +166,16 @@ def c14_range(ii: int, ni: int, o: int, form: int) -> bool:
         x = NoteContainer([Note(name, o)])
     elif form == 2:
         x = [Note(name, o)]
-    else:
+    elif form == 3:
         nc = NoteContainer()
         nc.notes = [Note("G", 4), Note(name, o)]
+        x = nc
+    elif form == 4:
+        x = [Note("G", 4), Note(name, o), Note("A", 4)]  # plain list, the note under test in the middle
+    else:
+        nc = NoteContainer(["G", "A", "B"])
+        nc[1].name = name  # a container edited in place (no longer sorted)
+        nc[1].octave = o
         x = nc
     if inside:
         ok = t.add_notes(x, 4) is True
@@ -278,8 +285,8 @@ def claims(tier):
         for first in range(nops):
             cl.append(Claim("history[m=%d/%d,first=%s%s]" % (METERS[mi][0], METERS[mi][1], KINDS[first // nv], VALS[first % nv][1]), c14_history, params={"nv": nv, "depth": depth, "mi": mi, "first": first}, group="c14_history", pre=[lambda mi, ki, a, b_, c, d: mi == P["mi"] and ki == P["mi"] and a == P["first"] and (d == 0 or P["depth"] >= 4)], timeout=1200 if q else 3000, bounds="all add_notes sequences of length %d over {note, chord, rest} x %d values, first op fixed, meter %r, key %s" % (depth, nv, METERS[mi], KEYS[mi])))
     for ii in range(4):
-        for fm in range(4):
-            cl.append(Claim("range[%s,form=%d]" % (INSTR[ii][0], fm), c14_range, params={"ii": ii, "fm": fm}, group="c14_range", pre=[lambda ii, ni, o, form: ii == P["ii"] and 0 <= ni < len(NAMES) and 0 <= o <= 10 and form == P["fm"]], timeout=1200 if q else 3000, bounds="%s x %d names x octave symbolic 0..10 x form %s; a rest is added first and after" % (INSTR[ii][0], len(NAMES), ["Note", "NoteContainer", "list of Notes", "two-note container"][fm])))
+        for fm in range(6):
+            cl.append(Claim("range[%s,form=%d]" % (INSTR[ii][0], fm), c14_range, params={"ii": ii, "fm": fm}, group="c14_range", pre=[lambda ii, ni, o, form: ii == P["ii"] and 0 <= ni < len(NAMES) and 0 <= o <= 10 and form == P["fm"]], timeout=1200 if q else 3000, bounds="%s x %d names x octave symbolic 0..10 x form %s; a rest is added first and after" % (INSTR[ii][0], len(NAMES), ["Note", "NoteContainer", "list of Notes", "two-note container", "three-note list, note in the middle", "container edited in place, note in the middle"][fm])))
     for mi in range(5):
         cl.append(Claim("near_full[m%d]" % mi, c14_near_full, params={"mi": mi}, group="c14_near_full", pre=[lambda mi, stop, ai, bi: mi == P["mi"] and 0 <= stop <= 6 and 0 <= ai < len(NEAR) and 0 <= bi < len(NEAR)], timeout=1200 if q else 3000, bounds="meter %d of 5: halving run down to 1/2^(1..7) then two items from %d short values; bar opening and contents against the exact model" % (mi, len(NEAR))))
     cl.append(Claim("probe_history", c14_history, params={"nv": 4, "depth": 3, "mi": 1, "first": 1, "exclude_known": False}, group="c14_history", pre=[], probe_only=True))
